@@ -27,18 +27,19 @@ fn _assert_send_sync() {
 }
 
 fn table_a() -> Arc<Table> {
-    Table::new(vec![OpDesc::bin_un("+", 0, true), OpDesc::bin("*", 1, true), OpDesc::bin_un("-", 0, false), OpDesc::bin("/", 1, false), OpDesc::un("f")])
+    Table::new(vec![OpDesc::bin_un("+", 0, true), OpDesc::bin("*", 1, true), OpDesc::bin_un("-", 0, false), OpDesc::bin("/", 1, false), OpDesc::un("f"), OpDesc::bin("**", 2, false)])
 }
-/// same names, other priorities, other slots
+/// same names (one of them a prefix of another), equally many operators, other priorities,
+/// other slots
 fn table_b() -> Arc<Table> {
-    Table::new(vec![OpDesc::un("f"), OpDesc::bin("/", 0, false), OpDesc::bin_un("-", 1, false), OpDesc::bin("*", 0, true), OpDesc::bin_un("+", 1, true)])
+    Table::new(vec![OpDesc::bin("**", 2, false), OpDesc::un("f"), OpDesc::bin("/", 0, false), OpDesc::bin_un("-", 1, false), OpDesc::bin("*", 0, true), OpDesc::bin_un("+", 1, true)])
 }
 fn set_tables() {
     set_table_n(0, &table_a());
     set_table_n(1, &table_b());
 }
 
-const TEXTS: [&str; 4] = ["x*2+y*x-3", "f(x-1)/y", "1+2*x", "x"];
+const TEXTS: [&str; 5] = ["x*2+y*x-3", "f(x-1)/y", "1+2*x", "x", "2**x*y-x**y"];
 
 #[derive(Clone, Debug, Hash, PartialEq, Eq)]
 pub enum Job {
@@ -207,7 +208,7 @@ pub fn bodies() -> Vec<Body> {
     vec![
         Body { name: "B1-eval-shared-flat", shared_text: TEXTS[0], shared_deep: false, threads: vec![vec![EvalShared(0), EvalShared(1)], vec![EvalShared(2), EvalVecShared(3)]] },
         Body { name: "B1-eval-shared-deep", shared_text: TEXTS[0], shared_deep: true, threads: vec![vec![EvalShared(0), EvalShared(1)], vec![EvalShared(2), EvalShared(3)]] },
-        Body { name: "B2-parse-same-and-different", shared_text: TEXTS[3], shared_deep: false, threads: vec![vec![ParseEval(0, 0, false, 0), ParseEval(1, 1, true, 1)], vec![ParseEval(0, 1, false, 2), ParseEval(0, 0, true, 3)]] },
+        Body { name: "B2-parse-same-and-different", shared_text: TEXTS[3], shared_deep: false, threads: vec![vec![ParseEval(0, 0, false, 0), ParseEval(4, 1, true, 1)], vec![ParseEval(4, 1, false, 2), ParseEval(4, 0, true, 3)]] },
         Body { name: "B2-parse-default-tables", shared_text: TEXTS[3], shared_deep: false, threads: vec![vec![ParseEval(2, 0, false, 0), ParseVal(0), ParseF64(0)], vec![ParseF64(1), ParseEval(2, 1, false, 1), ParseVal(1)]] },
         Body { name: "B3-convert-clone-while-evaluating", shared_text: TEXTS[1], shared_deep: false, threads: vec![vec![CloneConvert(0)], vec![EvalShared(1), EvalShared(2)]] },
         Body { name: "B1-three-threads", shared_text: TEXTS[2], shared_deep: false, threads: vec![vec![EvalShared(0)], vec![EvalShared(1)], vec![ParseEval(2, 1, false, 2)]] },
@@ -439,7 +440,7 @@ fn fresh_process_replays(bi: usize, rep: &mut Report) {
 
 pub fn run(tier: Tier) -> i32 {
     let mut rep = Report::new("C20", tier);
-    rep.rule = "schedules: real exmex code on shuttle threads under a preemption-bounded DFS scheduler (scheduling point = every call-back into the harness data type / operator factory / literal matcher), all schedules with <= b preemptions, b iterated 0,1,2(,3); sequential histories: all call sequences up to the length bound over 14 jobs (incl. two shared expressions of 2050 / 2300 operands) in one process; observations must equal the schedule-independent reference; distinct = schedules / histories; non-trivial = schedule with at least one preemption".into();
+    rep.rule = "schedules: real exmex code on shuttle threads under a preemption-bounded DFS scheduler (scheduling point = every call-back into the harness data type / operator factory / literal matcher), all schedules with <= b preemptions, b iterated 0,1,2(,3); sequential histories: two operator tables over the same data type with equally many operators in different slots and a prefix-related operator pair (`*`, `**`); all call sequences up to the length bound over 14 jobs (incl. two shared expressions of 2050 / 2300 operands) in one process; observations must equal the schedule-independent reference; distinct = schedules / histories; non-trivial = schedule with at least one preemption".into();
     rep.assumptions = vec![
         "code between two call-backs runs atomically; lazy_static's Once is trusted (who initialises first is enumerated)".into(),
         "Send + Sync of FlatEx / DeepEx is asserted at compile time (harness and /verif/probe)".into(),
@@ -502,9 +503,10 @@ pub fn run(tier: Tier) -> i32 {
         }
     }
     fresh_process_replays(3, &mut rep);
+    fresh_process_replays(2, &mut rep);
     // sequential histories
     use Job::*;
-    let jobs = vec![EvalShared(0), EvalVecShared(1), ParseEval(0, 0, false, 0), ParseEval(0, 1, false, 1), ParseEval(0, 0, true, 2), ParseEval(0, 1, true, 3), ParseEval(1, 1, false, 0), ParseEval(2, 0, true, 1), CloneConvert(2), ParseF64(0), ParseVal(0), ParseVal(1), EvalBig(0, 0), EvalBig(1, 1)];
+    let jobs = vec![EvalShared(0), EvalVecShared(1), ParseEval(0, 0, false, 0), ParseEval(0, 1, false, 1), ParseEval(4, 0, true, 2), ParseEval(4, 1, true, 3), ParseEval(1, 1, false, 0), ParseEval(2, 0, true, 1), CloneConvert(2), ParseF64(0), ParseVal(0), ParseVal(1), EvalBig(0, 0), EvalBig(1, 1)];
     let m = Seq { jobs: Arc::new(jobs), max_len: if tier.thorough() { 5 } else { 4 } };
     explore(m, &mut rep, "c20", "sequential call histories over 14 jobs");
     rep.finish()
